@@ -470,6 +470,17 @@ class Session:
         ev = [{"a": "Reset", "id": s["id"], "from": s.get("from", ""), "marker": cps(MARKER)}]
         full = []
         uri = f"file:///verif-docsync/s{s['id']}/main.st"
+        # Every third script lives in a real file: between the notifications somebody else rewrites that file on disk
+        # and the server is told through workspace/didChangeWatchedFiles.  For the property nothing happens -- the
+        # document is open, the editor's buffer is the truth -- so these steps are not part of the recorded history.
+        disk_path = None
+        if s["id"] % 3 == 0 and self.workdir:
+            d = os.path.join(str(self.workdir), "disk", f"s{s['id']}")
+            os.makedirs(d, exist_ok=True)
+            disk_path = os.path.join(d, "main.st")
+            with open(disk_path, "w", encoding="utf-8", newline="") as f:
+                f.write(s["open"])
+            uri = "file://" + disk_path
         try:
             if self.A is None:
                 self.call("incr", "start", lambda: self.start("A"))
@@ -505,6 +516,10 @@ class Session:
                 self.call("incr", "Change", lambda: A.notify("textDocument/didChange", {
                     "textDocument": {"uri": uri, "version": n + 2}, "contentChanges": changes}))
                 ev.append({"a": "Change", "changes": [dict(ch, text=cps(ch["text"])) for ch in st["changes"]]})
+                if disk_path is not None and (s["id"] + n) % 2 == 0:
+                    with open(disk_path, "w", encoding="utf-8", newline="") as f:
+                        f.write("(* rewritten on disk *)\nPROGRAM OnDisk\nVAR other : BOOL; END_VAR\nother := TRUE;\nEND_PROGRAM\n")
+                    self.call("incr", "Watched", lambda: A.notify("workspace/didChangeWatchedFiles", {"changes": [{"uri": uri, "type": 2}]}))
                 try:
                     model = apply_changes(model, st["changes"])
                 except ValueError:
